@@ -24,7 +24,7 @@ def run(ctx, replay):
     joined = attrs = 0
     with open(cases) as f:
         for line in f:
-            if '"split2"' not in line and '"attrs"' not in line:
+            if 'split2' not in line and 'attrs' not in line:
                 continue
             c = json.loads(json.loads(line))
             ml = [(m["file"], m["start"], m["limit"], m["off"]) for m in c["maplist"] if m["file"]]
